@@ -93,8 +93,27 @@ fn summary(o: &CtOut) -> String {
     }
 }
 
+/// Calls into a generated module; a panic there (e.g. a rule whose expression the generated
+/// lexerdef() cannot compile under the flags it wrote) is a result, not a harness failure.
+fn guarded<T>(f: impl FnOnce() -> T + std::panic::UnwindSafe) -> Result<T, String> {
+    std::panic::catch_unwind(f).map_err(|e| {
+        if let Some(s) = e.downcast_ref::<String>() {
+            s.clone()
+        } else if let Some(s) = e.downcast_ref::<&str>() {
+            s.to_string()
+        } else {
+            "panic".to_string()
+        }
+    })
+}
+
+fn inputs_of(p: &Value) -> Vec<String> {
+    p["inputs"].as_array().map(|a| a.iter().map(|x| x.as_str().unwrap_or("").to_string()).collect()).unwrap_or_default()
+}
+
 fn main() {
     let here = env!("CARGO_MANIFEST_DIR");
+    std::panic::set_hook(Box::new(|_| {}));
     let spec: Value = serde_json::from_str(&std::fs::read_to_string(format!("{here}/gen/spec.json")).unwrap()).unwrap();
     let mut pairs_run = 0u64;
     let mut comparisons = 0u64;
@@ -122,6 +141,14 @@ fn main() {
                 continue;
             }
         };
+        if let Some(inp0) = inputs_of(p).first() {
+            let parse = f.parse;
+            let inp = inp0.clone();
+            if let Err(msg) = guarded(move || { set_hooks(); parse(&inp); }) {
+                mismatches.push(json!({"id": id, "what": "the generated module panics", "input": inp0, "panic": msg}));
+                continue;
+            }
+        }
         pairs_run += 1;
         bump(&format!("kind:{}", rt.kind()), &mut classes);
         bump(&format!("storage:{}", p["settings"]["storaget"].as_str().unwrap_or("u32")), &mut classes);
@@ -273,7 +300,15 @@ fn main() {
             bump("lexer-only:start-states", &mut classes);
         }
         comparisons += 1;
-        let (dc, dr) = ((f.describe)(), rt.describe());
+        let describe = f.describe;
+        let dc = match guarded(move || describe()) {
+            Ok(d) => d,
+            Err(msg) => {
+                mismatches.push(json!({"id": id, "what": "the generated lexer module panics", "panic": msg, "lexer": lsrc}));
+                continue;
+            }
+        };
+        let dr = rt.describe();
         if dc != dr {
             mismatches.push(json!({"id": id, "what": "generated lexer definition differs from the run-time one", "ct": dc, "rt": dr}));
             continue;
